@@ -83,3 +83,32 @@ CHECKS["C06"] = dict(
     assumptions=["fake-time engine runs under go1.26.8 timer semantics (asynctimerchan=0)", "real-socket upper bounds are reported only if they reproduce 3 times in isolation"],
     units=[unit("props26", ["FakeTime"], "C06"), unit("props", ["Real"], "C06")],
 )
+
+CHECKS["C07"] = dict(
+    level="exploration",
+    rule="(Cache) rapid state machine on NewReplayCache(n), n in {0,1,2,3,4,5,8,16,50,1000,19999,20000}: add(label) / resize(m) / burst(K concurrent copies of one handshake), labels from alphabets of "
+         "2..30 plus fresh ones so repeats at every distance occur; labels map injectively to (key id, 32/24/16-byte salt). Model = list of checks with the capacity in force; a repeat at distance d <= min capacity "
+         "over the interval must be refused, a never-seen label must be accepted (an unexplained refusal is re-tried under two re-randomisations of all salts), a burst has exactly one winner. "
+         "(Server) two StreamHandlers with different key lists sharing one cache, handshakes presented on either. "
+         "Non-trivial = a repeat at distance within +-1 of the capacity, a burst with the cache enabled, or a handshake presented on both services. Distinct = canonical case JSON.",
+    assumptions=["the 32-bit checksum construction is not modelled: collisions are handled by re-randomisation (rule 4)", "across-reload sharing of the cache is exercised by the C10 executor scenarios"],
+    units=[unit("props", ["Cache", "Server"], "C07")],
+)
+CHECKS["C08"] = dict(
+    level="exploration",
+    rule="rapid-generated runs of 2..40 (thorough 300) relayed connections over key lists with all four ciphers, then 1..12 reflections of recorded server->client streams presented as client streams "
+         "(verbatim / truncated at 50..120 / extended), replay cache on and off. All server salts pairwise distinct; reflections for salts >= 20 bytes must end ERR_REPLAY_SERVER with no dial, no bytes, probe report. "
+         "Non-trivial = at least one reflection under a cipher with a salt of >= 20 bytes. Distinct = canonical case JSON.",
+    assumptions=["aes-128-gcm (16-byte salt) is exempt as the statement says", "in-memory connections"],
+    units=[unit("props", ["Salts"], "C08")],
+)
+CHECKS["C20"] = dict(
+    level="exploration",
+    rule="(Class) rapid-generated client addresses (block boundaries of every special-purpose block, mapped, zoned, 4/16-byte, TCP/UDP/nil/port-less/garbage/hostname forms) x database behaviours "
+         "(disabled, hit, empty answer, error) through GetIPInfoFromAddr/IP with a recording fake database; oracle by class alone from independent prefix tables. "
+         "(Expo) generated traffic histories fed to the real collector in a pedantic registry from two client addresses of one class: no series name/label contains any textual form of the client IP or its ports, "
+         "one location label per client across all families, and the two runs yield identical series and non-timing values. "
+         "Non-trivial = non-plain address form, non-global or mapped address, or non-hit database (Class); history with >=2 operations (Expo).",
+    assumptions=["'non-global' = loopback/unspecified/multicast/link-local/broadcast (the code's and existing tests' meaning; RFC1918 is looked up)", "zoned addresses may be XA or XL"],
+    units=[unit("props", ["Class", "Expo"], "C20")],
+)
